@@ -24,3 +24,7 @@ Proof.
   rewrite path_str_eq, <- (rel_path_str k p Hk).
   destruct (verdict s (rel [] (k :: p)) m1 m2); unfold is_content; apply content_eqb_refl.
 Qed.
+
+Lemma bykey_only_selected_current : forall ks sv, wf sv = true -> forall dv root dry sk,
+  only_selected ks root sv dv (fst (fst (bykey cfg_current ks sv dv root dry sk))) = true.
+Proof. intros ks. apply (bykey_only_selected cfg_current ks). reflexivity. Qed.
